@@ -947,6 +947,25 @@ def _get_all_by_filters_from_db(context, filters):
     resources = filters.pop('resources', {})
     in_tree = filters.pop('in_tree', None)
 
+    # Translate trait and resource class names to internal IDs before any
+    # filter below can short-circuit to an empty result, so that an unknown
+    # name is always reported (TraitNotFound, ResourceClassNotFound) and the
+    # answer does not depend on what the other filters happen to match.
+    # Required traits keep their nested structure.
+    required_traits = [
+        {
+            context.trait_cache.id_from_string(trait)
+            for trait in any_traits
+        }
+        for any_traits in required_traits
+    ]
+    if forbidden_traits:
+        forbidden_traits = trait_obj.ids_from_names(context, forbidden_traits)
+    resources = {
+        context.rc_cache.id_from_string(rc_name): amount
+        for rc_name, amount in resources.items()
+    }
+
     rp = sa.alias(_RP_TBL, name="rp")
     root_rp = sa.alias(_RP_TBL, name="root_rp")
     parent_rp = sa.alias(_RP_TBL, name="parent_rp")
@@ -988,16 +1007,6 @@ def _get_all_by_filters_from_db(context, filters):
         root_id = tree_ids.root_id
         query = query.where(rp.c.root_provider_id == root_id)
     if required_traits:
-        # translate trait names to trait internal IDs while keeping the nested
-        # structure
-        required_traits = [
-            {
-                context.trait_cache.id_from_string(trait)
-                for trait in any_traits
-            }
-            for any_traits in required_traits
-        ]
-
         rps_with_matching_traits = (
             res_ctx.provider_ids_matching_required_traits(
                 context, required_traits))
@@ -1005,9 +1014,8 @@ def _get_all_by_filters_from_db(context, filters):
             return []
         query = query.where(rp.c.id.in_(rps_with_matching_traits))
     if forbidden_traits:
-        trait_map = trait_obj.ids_from_names(context, forbidden_traits)
         trait_rps = res_ctx.get_provider_ids_having_any_trait(
-            context, trait_map.values())
+            context, forbidden_traits.values())
         if trait_rps:
             query = query.where(~rp.c.id.in_(trait_rps))
     if member_of:
@@ -1021,8 +1029,7 @@ def _get_all_by_filters_from_db(context, filters):
             context, [forbidden_aggs])
         if rps_bad_aggs:
             query = query.where(~rp.c.id.in_(rps_bad_aggs))
-    for rc_name, amount in resources.items():
-        rc_id = context.rc_cache.id_from_string(rc_name)
+    for rc_id, amount in resources.items():
         rps_with_resource = res_ctx.get_providers_with_resource(
             context, rc_id, amount)
         rps_with_resource = (rp[0] for rp in rps_with_resource)
